@@ -30,8 +30,8 @@ m = dict(
              kind_free_text="bounded symbolic interpreter for the LLVM IR (clang -O0, regenerated from /repo on every run) of named C functions of the extension: z3 bit-vectors, byte memory of sized objects with a bounds obligation on every access, stubs for CPython/libc/kernel calls"),
         dict(name="sched", path="psv/sched.py", serves_properties=["C04", "C10", "C11", "C16"],
              kind_free_text="real threads run one at a time under a line-level scheduler (sys.settrace); 'pre-empt here?' is a symbolic boolean per yield point under a pre-emption budget, so the explorer enumerates exactly the admitted schedules while data stays symbolic"),
-        dict(name="plat", path="psv/plat.py", serves_properties=["C19", "C20"],
-             kind_free_text="imports /repo/psutil a second time under an alias package as another platform (sys.platform/os.name patched during the import only) over programmable stub native modules"),
+        dict(name="plat", path="psv/plat.py", serves_properties=["C18", "C19", "C20"],
+             kind_free_text="imports /repo/psutil a second time under an alias package as another platform (sys.platform/os.name patched during the import only) over programmable stub native modules, or as Linux under different import-time conditions (cpufreq paths present; imported by another PID)"),
     ],
     checks=checks,
     not_applicable=na,
